@@ -1314,8 +1314,20 @@ impl<Octs> OwnerHash<Octs> {
     pub fn scan<S: Scanner<Octets = Octs>>(
         scanner: &mut S,
     ) -> Result<Self, S::Error> {
-        scanner
-            .convert_token(base32::SymbolConverter::new())
+        // The length check lives in a function that only knows the scanner:
+        // there, the octets type is known to be `AsRef<[u8]>`.
+        fn scan_octets<S: Scanner>(
+            scanner: &mut S,
+        ) -> Result<S::Octets, S::Error> {
+            let res =
+                scanner.convert_token(base32::SymbolConverter::new())?;
+            if res.as_ref().len() > OwnerHash::MAX_LEN {
+                return Err(S::Error::custom("owner hash too long"));
+            }
+            Ok(res)
+        }
+
+        scan_octets(scanner)
             .map(|octets| unsafe { Self::from_octets_unchecked(octets) })
     }
 
